@@ -11,7 +11,15 @@ LIST_KEYS = ("args", "elems", "stmts")
 
 
 def children(n):
-    """Yield (key, child) for every direct child expression/statement of n."""
+    """Yield (key, child) for every direct child expression/statement of n, in source order."""
+    out = list(_children(n))
+    if len(out) > 1:
+        out.sort(key=lambda kc: (kc[1].get("sp") or kc[1].get("e", {}).get("sp") or [0])[0]
+                 if not kc[1].get("mac") else (kc[1].get("sp") or [0])[0])
+    return out
+
+
+def _children(n):
     if not isinstance(n, dict):
         return
     k = n.get("k")
